@@ -15,17 +15,26 @@ applied, the result is stored unaligned to the output buffer.  The clauses are w
 
 Modes (tools/README.md):
   SYM   integers: load/store/set/broadcast/reverse/neg/abs/+/-/min/max/compare/sum/minimum/maximum, all mask forms -- full domain;
-        floats: data movement, unary minus, abs, compare, min/max, minimum()/maximum(), mask forms, casts (bit-level operations are real)
-  UF    float/double + - * / (vector, scalar and in-place forms), fmadd/fmsub/fnmadd, sqrt, set_sequential -- lane congruence,
-        bit exact (pipe P0)
-  ATOMS integer lane multiply (out[i] == a[i]*b[i]) and dot; float/double sum() ('LIN': each lane exactly once) and dot()
+        floats: data movement, unary minus, abs, compare, min/max, minimum()/maximum(), mask forms, casts (bit-level operations and
+        conversions are real); set_sequential of the generic template (real IEEE adders, <= 8 lanes)
+  UF    float/double + - * / (vector, scalar and in-place forms), fmadd/fmsub/fnmadd, sqrt, unary minus, abs, set_sequential of the
+        intrinsic specialisations -- lane congruence, bit exact (pipe P0)
+  ATOMS integer lane multiply (out[i] == a[i]*b[i], vector / scalar / in-place forms) and dot; float/double sum() ('LIN': each
+        lane exactly once) and dot() ('A'/'B': each product a[i]*b[i] exactly once)
 Float min/max/minimum()/maximum(): the clause is "the result is (bit for bit) one of the operands / lanes and is <= (>=) all of them";
 NaN lanes are excluded by `requires` (x86 min/max and std::min treat NaN and the sign of zero differently; the property's "scalar
 operation" is only unambiguous without them).
-Fused multiply-add family: the clause accepts the fused (one rounding) and the unfused (a*b then +c) scalar form, because which
-one the "scalar operation" is depends on the FMA flag of the configuration.
+Fused multiply-add family: up to 8 lanes the clause accepts the fused (one rounding, std::fma) and the unfused (a*b then +c) scalar
+form, because which one "the scalar operation" is depends on the FMA flag of the configuration; for 16 lanes (SAT cost) only the
+form the configuration documents is accepted (fused iff the build has FMA and the ABI has an intrinsic specialisation).
 Aligned forms: a fresh caller object starts at offset 0, which the alignment assertions of the translation treat as aligned
 (alignment of the caller's pointer is the documented precondition of the aligned forms).
+The generic template's shift() is checked on the unoptimised pipeline (P0, mode SYM): -O1 trims accesses it can prove out of bounds.
+16-lane UF cases (~64 uninterpreted applications, 1-4 min of SAT) are checked in assertion form directly (no DFCC attempt).
+
+Candidate-defect families (kept apart so that a finding matches one family): neg-int-simd, hmin-int / hmax-int, hmin-generic /
+hmax-generic, mask_store-fallback* / mask_store-prefix-fallback, lanes16-mask_*, broadcast (avx512), shift-generic, shift
+(double/avx/by3), maskload-free-generic.
 
 Not decided here (and why):
   * rcp / rsqrt relative-error bounds: need non-linear floating-point reasoning -- left out.
@@ -33,7 +42,8 @@ Not decided here (and why):
     UF would fix one association order that the property does not prescribe -- left out.
   * float/double sum()/dot() are proved as "each lane (product) exactly once" in the ring reinterpretation; the rounding of the
     particular summation order is not checked.
-  * integer division by a symbolic divisor (SAT dividers): left out.
+  * integer division: symbolic SAT dividers do not terminate (tried: every form timed out at 300 s) -- left out.
+  * int64 multiply needs no 32-bit-half emulation in this code base (scalar loop or vpmullq), so ATOMS applies to it everywhere.
   * complex SIMD vectors (split real/imaginary representation) are not covered by this generator.
   * SIMDVector<float|double,avx512>::minimum()/maximum() do not exist (C06 acceptance finding): no unit can be compiled.
   * set(n0,...,n_{N-1}) is specified in the Intel `_mm_set_*` argument order (last argument is lane 0), which is what every
@@ -49,6 +59,9 @@ LEVEL_NOTE = ('per instantiation (element type, vector ABI, operation, ISA flags
 L64 = Ty('int64', 'int64_t', 64, 'int')      # Fastor's Int64 (int64_t = long on this target; vf.I64 is long long)
 CPPT = {'int': 'int32_t', 'int64': 'int64_t', 'float': 'float', 'double': 'double'}
 HAS_AVX = ('avx', 'avx2', 'avx512')
+# SAT back end: MiniSat (cbmc's default) does not return from its second incremental call on several of these tiny instances
+# (3.5k clauses; stuck in Solver::pickBranchLit); CaDiCaL decides the same instances in 0.2 s.
+SOLVER = 'cadical'
 
 # ----------------------------------------------------------------------------------------------------------------------
 # vector types
@@ -87,7 +100,13 @@ def cid(fam, vt, cfg, extra=''):
     return 'C08/%s/%s/%s%s/%s' % (fam, vt.ty.name, vt.tag, ('/' + extra) if extra else '', cfg.tag())
 
 def mk(fam, vt, cfg, body, bufs, ens, mode='SYM', extra='', **kw):
-    return Case(cid(fam, vt, cfg, extra), 'C08', vt.decl() + body, bufs, ens, mode, cfg, **kw)
+    c = Case(cid(fam, vt, cfg, extra), 'C08', vt.decl() + body, bufs, ens, mode, cfg, **kw)
+    c.solver = SOLVER
+    return c
+
+def heavy_case(c):
+    c.form = 'harness'; c.timeout = 1200
+    return c
 
 def no_nan(x):
     return x.cmp('eq', x)
@@ -190,10 +209,13 @@ def data_movement(vt, P1, P0, full):
     s, o = s_(), o_()
     body = '    V va;\n    va.set_sequential(s[0]);\n    va.store(o,false);'
     if vt.flt:
+        # lane i = x + i; lane 0 may be x itself or x + 0.  The intrinsic specialisations add constants (UF congruence, P0); the
+        # generic template converts the loop counter, so its additions are checked with real IEEE adders (SYM, up to 8 lanes)
         x = E.inp(s, 0)
         ens = [('bool', 'lane 0 == x (or x+0)', E.post(o, 0).same(x).bor(E.post(o, 0).same(x + E.const(0, ty))))]
         ens += [(o, i, x + E.const(i, ty)) for i in range(1, n)]
-        out.append(mk('set_sequential', vt, P0, body, [s, o], ens, 'UF'))
+        if not vt.generic: out.append(mk('set_sequential', vt, P0, body, [s, o], ens, 'UF'))
+        elif n <= 8: out.append(mk('set_sequential', vt, P1, body, [s, o], ens))
     else:
         out.append(mk('set_sequential', vt, P1, body, [s, o], [(o, i, E.inp(s, 0) + E.const(i, ty)) for i in range(n)]))
     a, o = a_(), o_()
@@ -202,7 +224,7 @@ def data_movement(vt, P1, P0, full):
     out.append(mk('index', vt, P1, '    V va(a,false);\n' + '\n'.join('    o[%d] = %s;' % (k, ('va[%d]' if k % 2 == 0 else 'va(%d)') % k) for k in range(n)), [a, o], ident(a, o)))
     return out
 
-def shifts(vt, P1, full):
+def shifts(vt, P1, P0, full):
     """shift(i): lane j = (j >= i) ? lane j-i : 0."""
     n = vt.n; ty = vt.ty; out = []
     if vt.generic: ks = list(range(1, n))
@@ -211,15 +233,18 @@ def shifts(vt, P1, full):
     if not full: ks = sorted({ks[0], ks[-1]})
     for k in ks:
         a = Buf('a', ty, n, 'in'); o = Buf('o', ty, n, 'out')
-        out.append(mk('shift-generic' if vt.generic else 'shift', vt, P1, '    V va(a,false);\n    V r = va.shift(%d);\n    r.store(o,false);' % k, [a, o],
+        # the generic template is checked on the unoptimised pipeline (P0): -O1 silently trims accesses it can prove out of bounds
+        out.append(mk('shift-generic' if vt.generic else 'shift', vt, P0 if vt.generic else P1, '    V va(a,false);\n    V r = va.shift(%d);\n    r.store(o,false);' % k, [a, o],
                       [(o, j, E.inp(a, j - k) if j >= k else E.const(0, ty)) for j in range(n)], extra='by%d' % k))
     return out
 
-def masks(vt, P1, full):
+_mk = mk
+def masks(vt, P1, full, pre=''):
     n = vt.n; ty = vt.ty; out = []
     MT = vt.masktype
     zero = E.const(0, ty)
-    hw = '' if vt.hwmask else '-fallback'
+    hw = '' if (vt.hwmask or vt.abi == 'scalar') else '-fallback'
+    def mk(fam, *a, **kw): return _mk(pre + fam, *a, **kw)
     if n == 1 and vt.abi != 'scalar': return out
     if n not in (1, 2, 4, 8, 16): return out          # mask_to_array exists for these lane counts only
     def M(): return Scalar('m', UINT, 0, (1 << n) - 1)
@@ -256,10 +281,12 @@ def masks(vt, P1, full):
             return mb, req, en
         init = '    int mk[%d] = {%s};\n' % (n, ','.join('m[%d]' % j for j in range(n)))
         a = Buf('a', ty, n, 'in'); o = Buf('o', ty, n, 'out'); mb, req, en = marr()
-        out.append(mk('maskload-free', vt, P1, init + '    V va = maskload<V>(a,mk);\n    va.store(o,false);', [a, mb, o],
+        # AVX2 builds specialise the free functions for the sse/avx vectors; everything else goes through the generic template
+        fg = '' if (vt.spec and vt.abi in ('sse', 'avx') and vt.isa in ('avx2', 'avx512')) else '-generic'
+        out.append(mk('maskload-free' + fg, vt, P1, init + '    V va = maskload<V>(a,mk);\n    va.store(o,false);', [a, mb, o],
                       [(o, i, E.sel(en(i), E.inp(a, i), zero)) for i in range(n)], requires=req))
         a = Buf('a', ty, n, 'in'); c = Buf('c', ty, n, 'inout'); mb, req, en = marr()
-        out.append(mk('maskstore-free', vt, P1, init + '    V va(a,false);\n    maskstore(c,mk,va);', [a, mb, c],
+        out.append(mk('maskstore-free' + fg, vt, P1, init + '    V va(a,false);\n    maskstore(c,mk,va);', [a, mb, c],
                       [(c, i, E.sel(en(i), E.inp(a, i), E.inp(c, i))) for i in range(n)], requires=req))
     return out
 
@@ -317,22 +344,28 @@ def compares(vt, cfg, full, rng):
 def float_ops(vt, P1, P0, full, rng):
     n = vt.n; ty = vt.ty; out = []
     forms = ARITH_FORMS
+    # 16 lanes: ~64 uninterpreted applications per case (commutative operators count twice) => 1-4 minutes of SAT each; these
+    # go straight to the assertion form with a longer budget, and the quick tier keeps only the vector-vector forms
+    heavy = n >= 16
+    uf = lambda *a, **kw: heavy_case(lanewise(*a, mode='UF', **kw)) if heavy else lanewise(*a, mode='UF', **kw)
     for op, sym in (('add', '+'), ('sub', '-'), ('mul', '*'), ('div', '/')):
-        for fname, ex, nin, sc, ip in (forms if full else forms[:1] + [rng.choice(forms[1:])]):
-            out.append(lanewise('%s-%s' % (op, fname), vt, P0, ex % sym, arith_spec(op, fname), nin=nin, scalar=sc, inplace=ip, mode='UF'))
-    out.append(lanewise('sqrt', vt, P0, 'sqrt(va)', lambda x: x.sqrt(), nin=1, mode='UF'))
-    out.append(lanewise('neg', vt, P0, '-va', lambda x: -x, nin=1, mode='UF'))
-    out.append(lanewise('abs', vt, P0, 'abs(va)', lambda x: x.fabs(), nin=1, mode='UF'))
+        for fname, ex, nin, sc, ip in (forms if full else forms[:1] + ([] if heavy else [rng.choice(forms[1:])])):
+            out.append(uf('%s-%s' % (op, fname), vt, P0, ex % sym, arith_spec(op, fname), nin=nin, scalar=sc, inplace=ip))
+    out.append(uf('sqrt', vt, P0, 'sqrt(va)', lambda x: x.sqrt(), nin=1))
+    out.append(uf('neg', vt, P0, '-va', lambda x: -x, nin=1))
+    out.append(uf('abs', vt, P0, 'abs(va)', lambda x: x.fabs(), nin=1))
     if full:   # the same bit-level operations through the optimised pipeline, real semantics
         out.append(lanewise('neg-sym', vt, P1, '-va', lambda x: -x, nin=1))
         out.append(lanewise('abs-sym', vt, P1, 'abs(va)', lambda x: x.fabs(), nin=1))
-    # fused multiply-add family: fused or unfused scalar form
-    out.append(lanewise('fmadd', vt, P0, 'fmadd(va,vb,vc)', nin=3, mode='UF',
-                        bspec=lambda p, a, b, c: p.same(E.fma(a, b, c)).bor(p.same(a * b + c))))
-    out.append(lanewise('fmsub', vt, P0, 'fmsub(va,vb,vc)', nin=3, mode='UF',
-                        bspec=lambda p, a, b, c: p.same(E.fma(a, b, -c)).bor(p.same(a * b - c))))
-    out.append(lanewise('fnmadd', vt, P0, 'fnmadd(va,vb,vc)', nin=3, mode='UF',
-                        bspec=lambda p, a, b, c: p.same(E.fma(-a, b, c)).bor(p.same(E.fma(a, -b, c))).bor(p.same(c - a * b))))
+    # fused multiply-add family.  Up to 8 lanes the clause accepts the fused and the unfused scalar form; for 16 lanes (cost) the
+    # form is the one the configuration documents: fused iff the build has FMA and the ABI has an intrinsic specialisation.
+    fused = vt.spec and vt.isa in ('avx2', 'avx512')
+    alts = {'fmadd': ([lambda a, b, c: E.fma(a, b, c)], [lambda a, b, c: a * b + c]),
+            'fmsub': ([lambda a, b, c: E.fma(a, b, -c)], [lambda a, b, c: a * b - c]),
+            'fnmadd': ([lambda a, b, c: E.fma(-a, b, c), lambda a, b, c: E.fma(a, -b, c)], [lambda a, b, c: c - a * b])}
+    for fn, (fz, un) in alts.items():
+        fs = (fz if fused else un) if heavy else fz + un
+        out.append(uf(fn, vt, P0, '%s(va,vb,vc)' % fn, nin=3, bspec=lambda p, a, b, c, fs=fs: any_of([p.same(f(a, b, c)) for f in fs])))
     # min / max: one of the operands, bounding both; NaN excluded
     nn = lambda *xs: [no_nan(x) for x in xs]
     for op, rel in (('min', 'le'), ('max', 'ge')):
@@ -372,30 +405,43 @@ def casts(vt, P1):
     return out
 
 def all_families(vt, P1, P0, full, rng):
-    out = data_movement(vt, P1, P0, full) + shifts(vt, P1, full) + masks(vt, P1, full) + casts(vt, P1)
+    out = data_movement(vt, P1, P0, full) + shifts(vt, P1, P0, full) + masks(vt, P1, full) + casts(vt, P1)
     out += float_ops(vt, P1, P0, full, rng) if vt.flt else int_ops(vt, P1, full, rng)
     return out
 
-# families whose code path in a *narrower* ABI changes with the ISA flags (SSSE3/SSE4.1 abs, min/max, mullo, dpps; FMA;
-# AVX-512VL masks, abs/min/max on 64-bit integers): re-checked for the narrower ABIs under every wider ISA in the quick tier
-ISA_SENSITIVE = re.compile(r'^(mask|abs|min-vv|max-vv|mul-vv|dot|sum|fm|fnm|neg|hmin|hmax|load-store$|reverse)')
+# quick tier, ABIs narrower than the native one: only the families whose code path changes with the ISA flags (SSSE3/SSE4.1 abs,
+# min/max, mullo, dpps; FMA; AVX-512VL masks, abs/min/max on 64-bit integers)
+ISA_SENSITIVE = re.compile(r'^(mask|abs$|min-vv|max-vv|mul-vv|dot|sum|fm|fnm|neg|hmin|hmax|load-store$|reverse)')
+# quick tier, scalar ABI and second generic instantiations: a fixed sample of families
+SAMPLE = re.compile(r'^(load-store$|bcast-ctor|setN|reverse|add-vv|mul-vv|neg|abs$|min-vv|cmp-lt$|sum|dot|hmin|hmax|mask_load$|mask_store|shift|cast)')
+NATIVE = {'scalar': 'scalar', 'sse2': 'sse', 'sse4.2': 'sse', 'avx': 'avx', 'avx2': 'avx', 'avx512': 'avx512'}
 
 def vts(isa, thorough):
-    """(VT, full?) pairs of a configuration."""
+    """(VT, level) pairs of a configuration; level: 'full' (every family, every form), 'native' (every family, sampled forms),
+    'sens' (ISA-sensitive families), 'sample'."""
     out = []
     for ty in (INT, L64, FLT, DBL):
-        native = {'scalar': 'scalar', 'sse2': 'sse', 'sse4.2': 'sse', 'avx': 'avx', 'avx2': 'avx', 'avx512': 'avx512'}[isa]
         abis = ['scalar', 'sse']
         if isa in HAS_AVX: abis.append('avx')
         if isa == 'avx512': abis.append('avx512')
         if thorough:
             abis += ['fixed2', 'fixed4', 'fixed8']
             if isa in ('sse2', 'sse4.2'): abis.append('avx')          # generic fallback under the avx name
-            if isa == 'avx' and ty.kind == 'int': pass                # SIMDVector<int,avx> is already the generic fallback there
         elif isa == 'sse2':
             abis += ['fixed4']
         for abi in abis:
-            out.append((VT(ty, abi, isa), thorough or abi == native or (isa == 'sse2' and abi == 'fixed4' and ty in (INT, FLT))))
+            if thorough:
+                # the scalar build differs from sse2 only in the native alias; the generic template is ISA independent apart from
+                # the compiler flags: every family under sse2 and avx512, a sample elsewhere
+                if isa == 'scalar': lvl = 'sample' if abi != 'sse' else 'native'
+                elif abi == 'scalar': lvl = 'native'
+                elif abi.startswith('fixed'): lvl = 'full' if isa in ('sse2', 'avx512') else 'sample'
+                elif abi == 'avx' and isa in ('sse2', 'sse4.2'): lvl = 'native'
+                else: lvl = 'full'
+            elif abi == NATIVE[isa] or (abi == 'fixed4' and ty in (INT, FLT)): lvl = 'native'
+            elif abi == 'scalar' or abi.startswith('fixed'): lvl = 'sample'
+            else: lvl = 'sens'
+            out.append((VT(ty, abi, isa), lvl))
     return out
 
 def cases(tier, seed):
@@ -404,21 +450,21 @@ def cases(tier, seed):
     thorough = tier == 'thorough'
     for isa in isas(tier):
         P1 = Cfg(isa); P0 = Cfg(isa, pipe='P0')
-        for vt, full in vts(isa, thorough):
-            cs = all_families(vt, P1, P0, full, rng)
-            if not full:
-                if vt.abi == 'scalar' or vt.generic:
-                    # scalar ABI / second generic instantiations: a fixed sample of families
-                    keep = re.compile(r'^(load-store$|bcast-ctor|setN|reverse|add-vv|mul-vv|neg|abs|min-vv|cmp-lt$|sum|dot|hmin|hmax|mask_load$|mask_store|shift)')
-                    cs = [c for c in cs if keep.match(c.cid.split('/')[1])]
-                else:
-                    cs = [c for c in cs if ISA_SENSITIVE.match(c.cid.split('/')[1])]
+        for vt, lvl in vts(isa, thorough):
+            cs = all_families(vt, P1, P0, lvl == 'full', rng)
+            if lvl == 'sample': cs = [c for c in cs if SAMPLE.match(c.cid.split('/')[1])]
+            elif lvl == 'sens': cs = [c for c in cs if ISA_SENSITIVE.match(c.cid.split('/')[1])]
             out += cs
         if isa == 'sse2' or thorough:
             # 16-lane generic vectors take an 8-bit mask (same class as the SIMDVector<int32,avx512> mask fixed in d25f003)
             v16 = VT(FLT, 'fixed16', isa)
-            out += [c for c in masks(v16, P1, False) if re.match(r'C08/mask_(load|store-fallback)/', c.cid)]
+            out += [c for c in masks(v16, P1, False, pre='lanes16-') if re.match(r'C08/lanes16-mask_(load|store-fallback)/', c.cid)]
     seen = set(); res = []
     for c in out:
         if c.cid not in seen: seen.add(c.cid); res.append(c)
     return res
+
+def evidence_extra(tier):
+    return {'sat_backend_note': 'C08 cases run cbmc with --sat-solver cadical (MiniSat does not return on several of these small instances)',
+            'not_decided': ['rcp/rsqrt relative error bounds', 'product()', 'integer division', 'complex SIMD vectors',
+                            'rounding of float sum()/dot() (proved: each lane / product exactly once)']}
